@@ -168,7 +168,8 @@ impl<F: FixedChannelRegion> RegionHandler for FixedChannelPlan<F> {
     }
 
     fn get_datarate(&self, dr: u8) -> Option<&Datarate> {
-        F::datarates()[dr as usize].as_ref()
+        // DR15 is a valid 4-bit wire value (eg: JoinAccept DLSettings) but not a table entry
+        F::datarates().get(dr as usize)?.as_ref()
     }
 
     fn select_tx_channel<RNG: RngCore>(
